@@ -14,4 +14,85 @@ theorem intersection_param_sound (a0 ad b0 bd : V2 ℝ) (t0 t1 : ℝ)
     (h : GenRs.intersection_param a0 ad b0 bd = some (t0, t1)) :
     V2.add a0 (V2.smul t0 ad) = V2.add b0 (V2.smul t1 bd) := by
   rw [C06T.intersection_param_eq] at h; exact C06.intersectionParam_sound a0 ad b0 bd t0 t1 h
+
+/-! ### "farthest projected vertex": the regenerated scan of `max_point_in_direction` -/
+
+/-- one step of the scan, as regenerated -/
+noncomputable def scanStep (v : V2 ℝ) : ℝ × Option Nat → Nat × V2 ℝ → ℝ × Option Nat :=
+  fun (max_dist, max_i) (i, p) => (let dist := (V2.dot p v); (let (max_dist, max_i) := (if max_dist < dist then (let max_dist := dist; (let max_i := (some i); (max_dist, max_i))) else (max_dist, max_i)); (max_dist, max_i)))
+
+theorem max_point_scan_unfold (pts : List (V2 ℝ)) (v : V2 ℝ) (fmin : ℝ) :
+    GenRs.max_point_scan pts v fmin = (List.foldl (scanStep v) (fmin, none) (enumerateL pts)).2 := rfl
+
+/-- the state after scanning `xs` (numbered from `k`) starting in `(m, b)`: the maximum has not decreased, bounds every
+    scanned projection, and is either untouched or the projection of the vertex whose index is held -/
+theorem scan_invariant (v : V2 ℝ) (xs : List (V2 ℝ)) :
+    ∀ (k : Nat) (m : ℝ) (b : Option Nat),
+      let r := List.foldl (scanStep v) (m, b) ((xs.zipIdx k).map (fun p => (p.2, p.1)))
+      m ≤ r.1 ∧ (∀ p ∈ xs, V2.dot p v ≤ r.1) ∧
+      ((r.1 = m ∧ r.2 = b) ∨ ∃ i p, r.2 = some i ∧ k ≤ i ∧ xs[i - k]? = some p ∧ V2.dot p v = r.1) := by
+  induction xs with
+  | nil => intro k m b; simp
+  | cons x t ih =>
+    intro k m b
+    simp only [List.zipIdx_cons, List.map_cons, List.foldl_cons]
+    by_cases h : m < V2.dot x v
+    · have hs : scanStep v (m, b) (k, x) = (V2.dot x v, some k) := by simp [scanStep, h]
+      rw [hs]
+      obtain ⟨h1, h2, h3⟩ := ih (k + 1) (V2.dot x v) (some k)
+      refine ⟨le_trans h.le h1, ?_, ?_⟩
+      · intro p hp
+        rcases List.mem_cons.mp hp with rfl | hp
+        · exact h1
+        · exact h2 p hp
+      · right
+        rcases h3 with ⟨e1, e2⟩ | ⟨i, p, e1, e2, e3, e4⟩
+        · exact ⟨k, x, e2, le_refl k, by simp, e1.symm⟩
+        · refine ⟨i, p, e1, by omega, ?_, e4⟩
+          have : i - k = (i - (k + 1)) + 1 := by omega
+          rw [this, List.getElem?_cons_succ]; exact e3
+    · have hs : scanStep v (m, b) (k, x) = (m, b) := by simp [scanStep, h]
+      rw [hs]
+      obtain ⟨h1, h2, h3⟩ := ih (k + 1) m b
+      refine ⟨h1, ?_, ?_⟩
+      · intro p hp
+        rcases List.mem_cons.mp hp with rfl | hp
+        · exact le_trans (not_lt.mp h) h1
+        · exact h2 p hp
+      · rcases h3 with h3 | ⟨i, p, e1, e2, e3, e4⟩
+        · exact Or.inl h3
+        · right
+          refine ⟨i, p, e1, by omega, ?_, e4⟩
+          have : i - k = (i - (k + 1)) + 1 := by omega
+          rw [this, List.getElem?_cons_succ]; exact e3
+
+/-- **The farthest projected vertex is the exhaustive maximum.**  For a non-empty vertex list whose projections all
+    exceed the starting value (`f64::MIN` in the code: every finite projection does), the regenerated scan returns the
+    index of a vertex whose projection on the direction is at least that of every vertex. -/
+theorem max_point_scan_is_argmax (pts : List (V2 ℝ)) (v : V2 ℝ) (fmin : ℝ) (hne : pts ≠ [])
+    (hmin : ∀ p ∈ pts, fmin < V2.dot p v) :
+    ∃ i p, GenRs.max_point_scan pts v fmin = some i ∧ pts[i]? = some p ∧ ∀ q ∈ pts, V2.dot q v ≤ V2.dot p v := by
+  rw [max_point_scan_unfold]
+  have hinv := scan_invariant v pts 0 fmin none
+  unfold enumerateL
+  simp only at hinv
+  obtain ⟨h1, h2, h3⟩ := hinv
+  rcases h3 with ⟨e1, _⟩ | ⟨i, p, e1, _, e3, e4⟩
+  · exfalso
+    obtain ⟨x, hx⟩ := List.exists_mem_of_ne_nil pts hne
+    have := h2 x hx
+    have := hmin x hx
+    rw [e1] at *
+    linarith
+  · refine ⟨i, p, e1, by simpa using e3, ?_⟩
+    intro q hq
+    rw [e4]; exact h2 q hq
+
+/-- an empty vertex list has no farthest vertex -/
+theorem max_point_scan_empty (v : V2 ℝ) (fmin : ℝ) : GenRs.max_point_scan [] v fmin = none := rfl
+
+example : ∃ i p, GenRs.max_point_scan [⟨0, 0⟩, ⟨3, 1⟩, ⟨1, 5⟩] (⟨1, 0⟩ : V2 ℝ) (-100) = some i ∧
+    ([⟨0, 0⟩, ⟨3, 1⟩, ⟨1, 5⟩] : List (V2 ℝ))[i]? = some p ∧ ∀ q ∈ ([⟨0, 0⟩, ⟨3, 1⟩, ⟨1, 5⟩] : List (V2 ℝ)), V2.dot q ⟨1, 0⟩ ≤ V2.dot p ⟨1, 0⟩ :=
+  max_point_scan_is_argmax _ _ _ (by simp) (by intro p hp; simp at hp; rcases hp with rfl | rfl | rfl <;> simp [V2.dot] <;> norm_num)
+
 end C06U
